@@ -1678,3 +1678,159 @@ pub fn gen_prefix_placeholder(rg: &mut Rg) -> EnumSpec {
     }
     e
 }
+
+/// ordinary identifiers for the plain part of a corpus (distinct under every style and as method names)
+pub const PLAIN_IDENTS: &[&str] = &[
+    "Red", "Green", "Blue", "DarkBlack", "RebeccaPurple", "BrightWhite", "Dim", "Yellow", "Monday", "NotFound", "Purple", "Orange", "Cyan", "Magenta",
+    "Teal", "Crimson", "Indigo", "HttpServer", "UserId", "Var10", "Hello2You", "Utf8Error", "Sha256", "Base64Url", "LightGoldenrodYellow",
+];
+
+/// Rewrite a generated program so that it only uses documented constructs spelled the ordinary way
+/// (see `plain`): boundary spellings are replaced, the structure (kinds, fields, attributes, discriminants,
+/// generics) stays. Returns false - and leaves the program untouched - where that is not possible.
+pub fn plainify(e: &mut EnumSpec) -> bool {
+    use crate::plain;
+    if plain::is_plain(e) {
+        return true;
+    }
+    let backup = e.clone();
+    let bail = |e: &mut EnumSpec, b: EnumSpec| {
+        *e = b;
+        false
+    };
+    if e.variants.is_empty() || e.variants.len() > 12 || !e.macro_args.is_empty() || e.base_const.is_some() {
+        return false;
+    }
+    if let Some(r) = &e.repr {
+        if r.contains(',') || r.contains(';') || r == "C" {
+            return false;
+        }
+    }
+    e.decoys.clear();
+    e.generic_defaults = false;
+    e.noise.retain(|(_, t)| t.starts_with("///") || t.starts_with("#[allow"));
+    for g in e.groups.iter_mut() {
+        g.retain(|a| !matches!(a, EAttr::Crate(_)));
+        for a in g.iter_mut() {
+            if let EAttr::Prefix(p) = a {
+                if p.is_empty() || !p.chars().all(|c| c.is_ascii_alphanumeric() || "_:/.-".contains(c)) {
+                    *p = "pre_".to_string();
+                }
+            }
+        }
+    }
+    e.groups.retain(|g| !g.is_empty());
+    // identifiers
+    let mut used: Vec<String> = e.variants.iter().map(|v| model::snake_method(&v.ident)).collect();
+    for vi in 0..e.variants.len() {
+        let id = e.variants[vi].ident.clone();
+        let first_same = (0..vi).any(|j| model::snake_method(&e.variants[j].ident) == model::snake_method(&id));
+        let ok = plain::reasons(&{
+            let mut t = EnumSpec::new("t");
+            t.variants.push(VariantSpec::unit(&id));
+            t
+        })
+        .iter()
+        .all(|r| r != "identifier");
+        if ok && !first_same {
+            continue;
+        }
+        match PLAIN_IDENTS.iter().find(|c| !used.contains(&model::snake_method(c)) && !e.variants.iter().any(|v| v.ident == **c)) {
+            Some(c) => {
+                used.push(model::snake_method(c));
+                e.variants[vi].ident = c.to_string();
+            }
+            None => return bail(e, backup),
+        }
+    }
+    let mut key_n = 0;
+    for vi in 0..e.variants.len() {
+        let v = &mut e.variants[vi];
+        if v.disabled() && v.is_default() {
+            return bail(e, backup);
+        }
+        if v.disc_passthrough.iter().any(|p| !(p.starts_with("strum(") || p == "default" || p.starts_with("doc"))) {
+            return bail(e, backup);
+        }
+        v.noise.retain(|t| t.starts_with("///"));
+        let has_braces = v.attrs().any(|a| matches!(a, VAttr::ToString(s) | VAttr::Serialize(s) if s.contains('{') || s.contains('}')));
+        if has_braces || v.fields.len() > 3 {
+            return bail(e, backup);
+        }
+        for (fi, f) in v.fields.iter_mut().enumerate() {
+            if let Some(n) = &f.name {
+                if ["f", "fmt", "field0", "xx", "v", "prop", "func", "idx", "r#type"].contains(&n.as_str()) {
+                    f.name = Some(format!("fld{}", fi));
+                }
+            }
+        }
+        let ident = v.ident.clone();
+        let mut k = 0;
+        for g in v.groups.iter_mut() {
+            for a in g.iter_mut() {
+                match a {
+                    VAttr::Serialize(s) | VAttr::ToString(s) => {
+                        k += 1;
+                        let plain_name = !s.is_empty() && s.len() <= 40 && s.chars().all(|c| c.is_ascii_alphanumeric() || c == ' ' || c == '-' || c == '_') && !s.starts_with(' ') && !s.ends_with(' ');
+                        if !plain_name {
+                            // keep the byte length (the longest literal stays the longest)
+                            let n = s.len().max(4).min(36);
+                            let mut t = format!("n{}v{}", k, vi);
+                            while t.len() < n {
+                                t.push('a');
+                            }
+                            *s = t;
+                        }
+                        if *s == ident {
+                            s.push('x');
+                        }
+                    }
+                    VAttr::Message(s) | VAttr::Detailed(s) => {
+                        if !s.chars().all(|c| c.is_ascii() && !c.is_ascii_control() && c != '{' && c != '}') {
+                            *s = format!("plain text {}", vi);
+                        }
+                    }
+                    VAttr::Props(ps) => {
+                        for (key, val) in ps.iter_mut() {
+                            let kw = ["type", "fn", "match", "Self", "crate", "self", "super", "async", "dyn"];
+                            if !key.chars().all(|c| c.is_ascii_alphanumeric() || c == '_') || kw.contains(&key.as_str()) || key.starts_with('_') {
+                                key_n += 1;
+                                *key = format!("key{}", key_n);
+                            }
+                            if let PropVal::Str(t) = val {
+                                if !t.chars().all(|c| c.is_ascii() && !c.is_ascii_control() && c != '{' && c != '}') {
+                                    *t = "plain".to_string();
+                                }
+                            }
+                        }
+                    }
+                    _ => {}
+                }
+            }
+        }
+    }
+    if let Some(o) = e.disc_opts.as_mut() {
+        if o.passthrough.iter().any(|p| !p.starts_with("strum(")) {
+            return bail(e, backup);
+        }
+        if let Some(n) = o.name.as_mut() {
+            if !(n.chars().all(|c| c.is_ascii_alphanumeric()) && n.chars().next().map_or(false, |c| c.is_ascii_uppercase())) {
+                *n = "Kind".to_string();
+            }
+        }
+        for d in o.docs.iter_mut() {
+            if !d.is_ascii() || d.contains('{') || d.contains('}') {
+                *d = "The kind.".to_string();
+            }
+        }
+    }
+    // renamed literals may now overlap or tie: same repair as the generators use
+    let string_family = e.derives.iter().any(|d| ["EnumString", "Display", "AsRefStr", "IntoStaticStr", "VariantNames", "EnumMessage", "EnumProperty"].contains(&d.as_str()));
+    if string_family {
+        repair_spellings(e);
+    }
+    if !plain::is_plain(e) {
+        return bail(e, backup);
+    }
+    true
+}
